@@ -160,6 +160,14 @@ def gen_cloud_pair(rng, cls, scale=1.0):
         tu, ts = np.sort(rng.uniform(0, 1, nu)), np.sort(rng.uniform(0, 1, ns))
         pu = np.column_stack([tu * 2 - 1, 0.3 * np.sin(5 * tu + rng.uniform(0, 6))])
         ps = np.column_stack([0.3 * np.cos(4 * ts + rng.uniform(0, 6)), ts * 2 - 1])
+    elif cls in ("far_from_origin", "tiny_radius"):
+        # search radius many orders below the size of the coordinates (clouds far from the origin of the plane, or a very tight radius
+        # at ordinary scale): squared distances must be formed from coordinate differences, not from differences of squares
+        nu, ns = max(nu, 6), max(ns, 6)
+        pu = rng.uniform(-1, 1, (nu, 2))
+        k = min(nu, ns)
+        ps = rng.uniform(-1, 1, (ns, 2))
+        ps[:k] = pu[:k] + rng.normal(size=(k, 2)) * 0.02          # partners at 0.2 ... 3 search radii (radius set by the caller: ~0.01-0.03)
     else:
         raise ValueError(cls)
     # section geometry at the scale of real use (default search radius 1e-4): squared distances down to 1e-16
@@ -179,7 +187,7 @@ def gen_cloud_pair(rng, cls, scale=1.0):
     return pu, ps, Xu, Xs
 
 
-CLOUD_CLASSES = ["random", "clustered", "grid", "collinear", "duplicated", "curves"]
+CLOUD_CLASSES = ["random", "clustered", "grid", "collinear", "duplicated", "curves", "far_from_origin", "tiny_radius"]
 
 
 def judge_clouds(ctx, cls, it, scale, pu, ps, Xu, Xs, tiu, tis, eps, dv_tol, bal_tol, res):
@@ -312,6 +320,15 @@ def clouds(ctx, n):
         scale = float(10.0 ** -int(rng.choice([0, 0, 2, 4, 6])))
         pu, ps, Xu, Xs = gen_cloud_pair(rng, cls, scale)
         eps = float(10.0 ** rng.uniform(-3, 0.3)) * scale
+        if cls in ("far_from_origin", "tiny_radius"):
+            eps = float(rng.uniform(0.01, 0.03))
+            shrink = 10.0 ** float(rng.uniform(-9, -4))                    # cloud (and radius) shrunk to this size ...
+            centre = (rng.uniform(-1, 1, 2) * 10.0 ** float(rng.uniform(3, 4.2))) if cls == "far_from_origin" else rng.uniform(-1, 1, 2)
+            pu, ps, eps = centre + pu * shrink, centre + ps * shrink, eps * shrink   # ... around a centre of ordinary or large size
+            Xu[:, :3] = 0.0
+            Xs[:, :3] = 0.0
+            Xu[:, 0], Xu[:, 1] = pu[:, 0], pu[:, 1]
+            Xs[:, 0], Xs[:, 1] = ps[:, 0], ps[:, 1]
         dv_tol = float(10.0 ** rng.uniform(-9, 1))
         bal_tol = float(dv_tol * 10.0 ** rng.uniform(-4, 0.5))
         tiu = rng.integers(0, 5, len(pu)) if rng.random() < 0.5 else None
